@@ -63,7 +63,10 @@ def run(ctx, rep):
             via_super = any(isinstance(n, ast.Call) and isinstance(n.func, ast.Attribute) and n.func.attr == gh.name and isinstance(n.func.value, ast.Call) and isinstance(n.func.value.func, ast.Name) and n.func.value.func.id == "super" for n in body_nodes)
             reads_used = any(isinstance(n, ast.Attribute) and n.attr in ("used_qubits", "parameters") for n in body_nodes)
             reads_body = any(isinstance(n, ast.Attribute) and n.attr == "body" for n in body_nodes)
-            if via_super or (reads_used and reads_body):
+            const_rets = [s_ for s_ in iter_stmts(gh.body) if isinstance(s_, ast.Return) and (s_.value is None or isinstance(s_.value, (ast.Dict, ast.Constant, ast.Set, ast.List)) and not getattr(s_.value, "keys", None) and not getattr(s_.value, "elts", None))]
+            if via_super and const_rets and vis != UQ:
+                rep.violation("C13.1", cons, f"`return {ast.unparse(const_rets[0].value) if const_rets[0].value is not None else ''}` on one path of the overriding gate handler: for those gates no qubits are reported (busy gates such as prepare_all/measure_all no longer collide with parallel branches)", f"{gh.path}:{const_rets[0].lineno}")
+            elif via_super or (reads_used and reads_body):
                 rep.ok("C13.1", cons, "delegates to the base handler" if via_super else "visits the qubit arguments and, for macros, the body", gh.loc())
             else:
                 rep.violation("C13.1", cons, "the gate handler does not visit " + ("the macro body" if reads_used else "the gate's qubit arguments"), gh.loc())
@@ -263,7 +266,17 @@ def run(ctx, rep):
                     resolved = True
                 else:
                     raw = v
-            if resolved and raw is None:
+            # the callee's own arguments take precedence over what is inherited from the caller
+            order_bad = False
+            starred = [v for k, v in zip(merged.keys, merged.values) if k is None]
+            if len(starred) == 2:
+                first_touches = any(isinstance(m, ast.Attribute) and m.attr == "parameters" for r in fl.depends(starred[0])[1] for m in ast.walk(r))
+                second_touches = any(isinstance(m, ast.Attribute) and m.attr == "parameters" for r in fl.depends(starred[1])[1] for m in ast.walk(r))
+                if first_touches and not second_touches:
+                    order_bad = True
+            if order_bad:
+                rep.violation("C13.6", cons, f"`{ast.unparse(merged)}` lets the caller's scope override the callee's own arguments: a parameter name re-used by an inner macro resolves to the OUTER binding (`macro flip a {{ Px a }}; macro second a b {{ flip b }}; second q[0] q[1]` reports qubit 0)", f"{gh.path}:{merged.lineno}", witness="macro flip a { Px a }\nmacro second a b { flip b }\nsecond q[0] q[1]")
+            elif resolved and raw is None:
                 rep.ok("C13.6", cons, "call arguments pass through a resolve step before being merged into the callee's context", gh.loc())
             else:
                 rep.violation("C13.6", cons, f"`{ast.unparse(merged)}` puts the call's raw arguments into the callee's scope: an argument that is itself a parameter of the enclosing macro with the same name as the callee's parameter is bound to itself (`macro inner a {{ g a }}; macro outer a {{ inner a }}; outer r[1]` -> RecursionError)", f"{gh.path}:{merged.lineno}", witness="register r[3]\nmacro inner a { g a }\nmacro outer a { inner a }\nouter r[1]")
